@@ -11,6 +11,8 @@ use serde_json::json;
 #[derive(Clone, Debug)]
 pub enum Ev {
     Start(OpSpec),
+    /// start an operation whose future is not polled yet (held from the beginning)
+    StartHeld(OpSpec),
     Cancel(usize),
     Hold(Tid),
     Release(Tid),
@@ -37,6 +39,7 @@ impl Ev {
     pub fn brief(&self) -> String {
         match self {
             Ev::Start(s) => format!("Start({})", s.brief()),
+            Ev::StartHeld(s) => format!("StartHeld({})", s.brief()),
             Ev::Cancel(i) => format!("Cancel(op{})", i),
             Ev::Hold(t) => format!("Hold({:?})", t),
             Ev::Release(t) => format!("Release({:?})", t),
@@ -94,7 +97,7 @@ impl Ev {
             SPacket::Raw(_) => "RAW".into(),
         };
         match self {
-            Ev::Start(s) => format!(
+            Ev::Start(s) | Ev::StartHeld(s) => format!(
                 "Start({})",
                 match s {
                     OpSpec::Publish(p) => format!("publish-q{}", p.qos()),
@@ -154,6 +157,10 @@ pub struct Sys {
     pub auto_exit: bool,
     pub check_stall: bool,
     pub params: serde_json::Value,
+    /// deliver every inbound packet one byte per read
+    pub bytewise_reads: bool,
+    /// after every event additionally poll every live task whose waker did not fire
+    pub sweep: bool,
 }
 
 impl Sys {
@@ -173,6 +180,8 @@ impl Sys {
             auto_exit: true,
             check_stall: true,
             params: json!({}),
+            bytewise_reads: false,
+            sweep: false,
         }
     }
 
@@ -219,6 +228,29 @@ impl Sys {
     /// settle both sides and compare
     pub fn sync(&mut self) {
         self.w.settle();
+        if self.sweep {
+            // polls without a wakeup must be inert
+            let mut tids = vec![];
+            if self.w.ctx.alive() && !self.w.ctx.held {
+                tids.push(Tid::Ctx);
+            }
+            for i in 0..self.w.ops.len() {
+                if self.w.ops[i].alive() && !self.w.ops[i].held {
+                    tids.push(Tid::Op(i));
+                }
+            }
+            for i in 0..self.w.streams.len() {
+                if self.w.streams[i].alive() && !self.w.streams[i].held {
+                    tids.push(Tid::Stream(i));
+                }
+            }
+            for t in tids {
+                if self.w.task(t).alive() {
+                    self.w.poll_task(t);
+                }
+            }
+            self.w.settle();
+        }
         self.m.settle();
         // the context task ends (and drops the Context) right after run() returned
         if self.auto_exit && self.m.ctx == CtxSt::Returned {
@@ -307,6 +339,13 @@ impl Sys {
                 let b = self.w.start_op(spec);
                 assert_eq!(a, b, "harness: op index mismatch");
             }
+            Ev::StartHeld(spec) => {
+                let a = self.m.start(spec.clone());
+                let b = self.w.start_op(spec);
+                assert_eq!(a, b, "harness: op index mismatch");
+                self.m.ops[a].held = true;
+                self.w.ops[b].held = true;
+            }
             Ev::Cancel(i) => {
                 self.m.cancel(i);
                 self.w.drop_task(Tid::Op(i));
@@ -333,7 +372,13 @@ impl Sys {
             }
             Ev::Deliver(p) => {
                 self.m.deliver(p.clone());
-                self.w.deliver(p.encode());
+                if self.bytewise_reads {
+                    for b in p.encode() {
+                        self.w.deliver(vec![b]);
+                    }
+                } else {
+                    self.w.deliver(p.encode());
+                }
             }
             Ev::DeliverBatch(v) => {
                 let mut bytes = vec![];
